@@ -159,9 +159,12 @@ def worker_main(mod, prop, seed, indices, wfd, deadline, sample_idx, cold=None):
         out.write(json.dumps({"type": "harness_error", "idx": -1,
                               "error": traceback.format_exc()[-2000:]}) + "\n")
     finally:
-        out.flush()
         import shutil
         shutil.rmtree(ctx["dir"], ignore_errors=True)
+        try:
+            out.flush()
+        except OSError:
+            pass
 
 
 def trim_plan(plan, limit=6000):
@@ -371,7 +374,7 @@ def batch(prop, tier, seed, workers, nruns, budget_s=None):
         },
         "assumptions": desc.get("assumptions", []),
         "wall_s": round(wall, 2),
-        "violations": len(confirmed) + len(unconfirmed_rest),
+        "violations": len(confirmed),
     }
     os.makedirs(os.path.join(OUT, "evidence"), exist_ok=True)
     with open(os.path.join(OUT, "evidence", prop + ".json"), "w") as f:
@@ -387,13 +390,15 @@ def batch(prop, tier, seed, workers, nruns, budget_s=None):
         if key not in seen_known:
             seen_known.add(key)
             print("KNOWN-FINDING: property=%s %s" % (prop, k.get("what")))
-    for m in confirmed + unconfirmed_rest:
+    for m in confirmed:
         print("VIOLATION property=%s replay=%s" % (prop, m["replay"]))
         print("  invariant %s: %s" % (m["violation"]["inv"], m["violation"]["detail"][:400]))
+    if unconfirmed_rest and confirmed:
+        print("  (+%d further violating runs, replay files written but not re-confirmed)" % len(unconfirmed_rest))
     if harness_errors:
         for h in harness_errors[:10]:
             print("HARNESS-ERROR " + h[:1500])
-    if confirmed or unconfirmed_rest:
+    if confirmed:
         return 1
     if harness_errors or not runs:
         return 2
